@@ -4,11 +4,11 @@ import Verif.Model.OTT
 
   `h db=0|1 chk=0|1 start=<sec> reqs=<R>;<R>;… evs=<E>,<E>,…`
       R = `<lookupOK>:<iat|->:<idr>:<sha>:<skip>:<valid>`, idr = `k<x-hex>` | `u` (reuse) | `e` (error),
-          sha = `x<hex>`;   E = `s<thread>` | `r<start second of the new process>`
+          sha = `x<hex>` (hash of the signed payload);   E = `s<thread>` | `r<start second of the new process>`
       output: one `<answer>:<cas>` per request joined by `,` then ` n=<records in used_ott>`;
           answer = auth | deny | drop | pend ; cas = stored | exists | none
   `t kind=<kind> dtofu=0|1 dcsans=0|1 parses=0|1 …`  (the configured provisioner; its type is `ptypeOf`) or
-  `t ty=<type> parses=0|1 jti=x.. nonce=x.. derived=x.. awsvalid=0|1 sha=x..`
+  `t ty=<type> parses=0|1 jti=x.. nonce=x.. derived=x.. awsvalid=0|1 sha=x.. psha=x..`
       output: `id:<x-hex>` | `reuse` | `err`, then ` key=<x-hex>|none`
 -/
 open Verif Verif.Store Verif.OTT
@@ -89,10 +89,11 @@ def eval (line : String) : Option String := do
       | none => ptype? (← lookup kv "ty")
     let t : Tok := { parses := (← bool? (← lookup kv "parses")), jti := (← str? (← lookup kv "jti")),
                      nonce := (← str? (← lookup kv "nonce")), derived := (← str? (← lookup kv "derived")),
-                     awsValid := (← bool? (← lookup kv "awsvalid")), sha := (← str? (← lookup kv "sha")) }
+                     awsValid := (← bool? (← lookup kv "awsvalid")), sha := (← str? (← lookup kv "sha")),
+                     psha := (← str? (← lookup kv "psha")) }
     let r := getTokenID ty t
     let a := match r with | .id k => "id:x" ++ hex k | .reuse => "reuse" | .err => "err"
-    let k := match useKey r t.sha with | some k => "x" ++ hex k | none => "none"
+    let k := match useKey r t.psha with | some k => "x" ++ hex k | none => "none"
     pure (a ++ " key=" ++ k)
   | _ => none
 
